@@ -70,7 +70,7 @@ theorem xrefLoop_mono {rec : Rec} (hr : CleanRec rec) {root : Node} {rs : Bool} 
     (h : xrefLoop rec root rs self fuel cur chain st = .ok (v, st')) :
     st.unsafeSeen ≤ st'.unsafeSeen :=
   (xrefLoop_lift (I := fun _ => True) (R := fun s s' => s.unsafeSeen ≤ s'.unsafeSeen)
-    (fun _ => Nat.le_refl _) (fun _ _ _ => ⟨trivial, Nat.le_succ _⟩)
+    (fun _ => Nat.le_refl _) (fun _ _ _ => Nat.le_trans) (fun _ _ _ => ⟨trivial, Nat.le_succ _⟩)
     (fun m tp s v s' _ _ hc => ⟨trivial, hr.mono rs m tp s v s' hc⟩) fuel cur chain st v st' trivial h).2
 
 theorem xrefLoop_clean {rec : Rec} (hr : CleanRec rec) {root : Node} {rs : Bool} {self : Path} :
@@ -102,7 +102,12 @@ theorem xrefLoop_clean {rec : Rec} (hr : CleanRec rec) {root : Node} {rs : Bool}
               split at h
               · cases h
               · split at h
-                · exact xrefLoop_mono hr h
+                · split at h
+                  · split at h
+                    · cases h
+                    · have := xrefLoop_mono hr h
+                      simp only at this; omega
+                  · exact xrefLoop_mono hr h
                 · exact hr.mono _ _ _ _ _ _ h
           rcases ctxGetNode_ok_inv hg with ⟨v0, rfl, hv, ⟨ht, rfl⟩ | ⟨_, _, rfl⟩⟩ | ⟨n0, rfl, hv, hn, rfl⟩
           · exact ⟨rfl, by simp [ctxGetNode, hv, ht]⟩
@@ -121,7 +126,16 @@ theorem xrefLoop_clean {rec : Rec} (hr : CleanRec rec) {root : Node} {rs : Bool}
             cases n0 with
             | leaf f lk =>
               cases lk with
-              | xref nx => exact xrefLoop_clean hr fuel _ _ _ v st' h hs
+              | xref nx =>
+                simp only at h ⊢
+                split at h
+                · split at h
+                  · cases h
+                  · have := xrefLoop_mono hr h
+                    simp only at this; omega
+                · rename_i hsafe
+                  simp only [hsafe]
+                  exact xrefLoop_clean hr fuel _ _ _ v st' h hs
               | _ => exact hr.clean _ _ _ _ _ _ h hs
             | comp f k cs => exact hr.clean _ _ _ _ _ _ h hs
 
